@@ -16,6 +16,7 @@ type Clause struct {
 	E     Expr
 	Line  int
 	File  string
+	Assumed   bool // "assumes": postcondition used by callers but not checked against the body (trusted clause, listed)
 	OnSuccess bool // "preserves": as a postcondition it is only required when the function returns a nil error (A1)
 }
 
@@ -51,6 +52,7 @@ type Contract struct {
 	Line     int
 	Uses     []string // lemma: names of earlier lemmas used as hypotheses
 	Witnesses []*Witness // existentially quantified ghost values of the postcondition
+	Writes   []string   // lib: pointer parameters whose pointee is overwritten with an unconstrained value
 	Hints    []*Clause  // lemma: terms mentioned so that axiom patterns can fire (no new facts)
 }
 
@@ -64,7 +66,7 @@ type Witness struct {
 
 var clauseKW = map[string]bool{"func": true, "lib": true, "lemma": true, "props": true, "theory": true, "requires": true, "ensures": true, "preserves": true,
 	"modifies": true, "loop": true, "returns": true, "inline": true, "noinline": true, "pure": true, "maypanic": true, "trusted": true,
-	"results": true, "fresh": true, "uses": true, "end": true, "witness": true, "hint": true}
+	"results": true, "fresh": true, "uses": true, "end": true, "witness": true, "hint": true, "assumes": true, "writes": true}
 
 var labelRe = regexp.MustCompile(`^\s*(\[[A-Za-z0-9_, ]+\])?\s*([A-Za-z_][A-Za-z0-9_]*)\s*:([^:=].*|$)`)
 var tagOnlyRe = regexp.MustCompile(`^\s*\[([A-Za-z0-9_, ]+)\]\s*(.*)$`)
@@ -221,6 +223,18 @@ func parseContractFile(path, pkgPath string) ([]*Contract, error) {
 			cur.Trusted = true
 		case "fresh":
 			cur.Fresh = true
+		case "writes":
+			cur.Writes = append(cur.Writes, strings.Fields(strings.ReplaceAll(r.text, ",", " "))...)
+		case "assumes":
+			c, err := parseClause(r.text, path, r.line)
+			if err != nil {
+				return nil, err
+			}
+			if c.Label == "" {
+				c.Label = fmt.Sprintf("a%d", len(cur.Ensures))
+			}
+			c.Assumed = true
+			cur.Ensures = append(cur.Ensures, c)
 		case "requires", "ensures", "returns", "preserves":
 			c, err := parseClause(r.text, path, r.line)
 			if err != nil {
